@@ -108,7 +108,21 @@ func (fr *Frame) call(ins *ssa.Call, c *ssa.CallCommon, reach *Term, st *State) 
 		return fr.applyContract(ins, fc, key, callee, args, c, reach, st, pos, ordinal)
 	}
 	if callee != nil && len(callee.Blocks) > 0 && fr.depth < maxInlineDepth && e.canInline(callee) {
-		return fr.inline(ins, callee, ci, args, reach, st, pos)
+		// a call that is inlined is an anchor for ghost statements as well (`@ before * ID`)
+		fr.ghostArgs = args
+		fr.ghostStmts(key, ordinal, "before", st, reach)
+		fr.ghostArgs = nil
+		r := fr.inline(ins, callee, ci, args, reach, st, pos)
+		if ins != nil {
+			if rv, ok := fr.env[ins]; ok {
+				if _, tup := ins.Type().(*types.Tuple); !tup {
+					fr.ghostResults = []Val{rv}
+				}
+			}
+		}
+		fr.ghostStmts(key, ordinal, "after", st, r)
+		fr.ghostResults = nil
+		return r
 	}
 	if callee != nil && len(callee.Blocks) > 0 {
 		vc.Errors = append(vc.Errors, fmt.Sprintf("call to %s needs a contract (has loops or inlining too deep)", e.shortName(key)))
